@@ -43,9 +43,12 @@ type ReadOpt func(*ReadOptions) error
 // Deprecated: the int64 argument does not permit the full range of possible message timestamps,
 // use AfterNanos instead.
 func After(start int64) ReadOpt {
+	if start < 0 {
+		start = 0
+	}
 	return func(ro *ReadOptions) error {
-		if ro.End < start {
-			return fmt.Errorf("end cannot come before start")
+		if err := AfterNanos(uint64(start))(ro); err != nil {
+			return err
 		}
 		ro.Start = start
 		return nil
@@ -57,9 +60,12 @@ func After(start int64) ReadOpt {
 // Deprecated: the int64 argument does not permit the full range of possible message timestamps,
 // use BeforeNanos instead.
 func Before(end int64) ReadOpt {
+	if end < 0 {
+		end = 0
+	}
 	return func(ro *ReadOptions) error {
-		if end < ro.Start {
-			return fmt.Errorf("end cannot come before start")
+		if err := BeforeNanos(uint64(end))(ro); err != nil {
+			return err
 		}
 		ro.End = end
 		return nil
